@@ -7,13 +7,14 @@ def run(check, pool, Task):
     validate.apply(check, ['orient', 'measures'])
     thorough = check.tier == 'thorough'
     cap = 900
-    check.bounds.update({'kernel': 'polygons of <= 3 rings of <= 4 (5) distinct vertices, <= 2 polygons, optional leading ring outside the slice; |v| <= 2^24',
+    check.bounds.update({'kernel': 'polygons of <= 3 rings of <= 5 (4 rings, or one ring of <= 8, thorough) distinct vertices, <= 3 polygons, optional leading ring outside the slice; |v| <= 2^24',
                          'wrappers': 'arrays of 5 elements (missing, empty, 1-3 rings) and derivations of them; coordinates real-valued (polynomial sign conditions decided by nlsat)',
                          'intersection invariance': 'by composition: (a) valid polygons (holes wound opposite to the shell) are flipped as a whole or not at all - checked on every path; (b) the box/point oracles are symmetric under reversal of all rings (lemmas Dsym, WNsym, exact, |v|<=2^25); (c) kernel == oracle for rings wound either way (C01/C02, within their bounds)'})
     check.assumptions += ['rings are stored closed (first vertex repeated)', 'exact arithmetic (areas are exact below 2^24 / for the real-valued model)']
-    kernel = [([[3]], 0), ([[4]], 0), ([[3, 3]], 0), ([[3], [3]], 0), ([[3, 3]], 1), ([[3, 3], [4]], 0), ([[2]], 0), ([[3, 0]], 0), ([[3], []], 0), ([[1]], 0)]
+    kernel = [([[3]], 0), ([[4]], 0), ([[3, 3]], 0), ([[3], [3]], 0), ([[3, 3]], 1), ([[3, 3], [4]], 0), ([[2]], 0), ([[3, 0]], 0), ([[3], []], 0), ([[1]], 0),
+              ([[5]], 0), ([[4, 3, 3]], 0), ([[3, 3], [3, 3]], 1), ([[3], [3], [3]], 2)]
     if thorough:
-        kernel += [([[5]], 0), ([[4, 3, 3]], 0), ([[3, 3], [3, 3]], 1), ([[3], [3], [3]], 2)]
+        kernel += [([[6]], 0), ([[8]], 0), ([[5, 4]], 0), ([[4, 4, 4]], 0), ([[6, 3], [5]], 1), ([[3, 3, 3, 3]], 0)]
     tasks = [Task(f'lemma:oracle symmetry {nm} (reversing a ring does not change separation / negates the winding contribution)', c15.symmetry_lemma, (nm,), {'seed': check.seed},
                   timeout=300, meta={'level': 'lemma'}) for nm in ('Dsym', 'WNsym')]
     for polys, lead in kernel:
